@@ -12,8 +12,8 @@ import (
 
 func c06Family(name, local string, ctors []string, near []string) *family {
 	paths := append([]string{local}, near...)
-	paths = append(paths, "x/d1", "y/d1", "fmt")
-	names := map[string]string{"x/d1": "d1", "y/d1": "d1"}
+	paths = append(paths, "x/d1", "y/d1", "fmt", "X/D1")
+	names := map[string]string{"x/d1": "d1", "y/d1": "d1", "X/D1": "d1"}
 	for _, p := range near {
 		names[p] = "c"
 	}
@@ -24,7 +24,7 @@ func c06Family(name, local string, ctors []string, near []string) *family {
 		big = append(big, p)
 		names[p] = fmt.Sprintf("tbl%d", i)
 	}
-	return &family{name: name, ctors: ctors, local: local, paths: paths, names: names, bigHints: big,
+	return &family{name: name, ctors: ctors, local: local, paths: paths, names: names, bigHints: big, canon: []string{near[0], "x/d1", local},
 		aliases: []string{".", "c"}, prefixes: []string{"pkg"}, maxRefs: 3, freeRefs: 2,
 		wrappers: []int{0, imp.WrapperIndex("dictkey"), imp.WrapperIndex("caseblock")}, anon: true, extra: true, last: true, doubles: true, rehint: true}
 }
